@@ -212,7 +212,7 @@ def rule_decoded_values_tested(ctx, table, cfg='prod-all', rule='RF-D'):
                     if not ok:
                         bad.append({'accept_block': ap['block'], 'decoding_call': st[1]})
             yield Ob(rule, key, not bad, what, body.span, fact={'decoding_calls': [s_[1] for s_ in sites], 'untested': bad[:4]}, expected='every decoding call tested')
-    yield Ob(rule, 'crate#decoded-members-examined', n >= 8, 'decoded members whose decoding call was named', '', fact=n, expected='>= 8', nontrivial=False)
+    yield Ob(rule, 'crate#decoded-members-examined', n >= 6, 'decoded members whose decoding call was named (12 on the reviewed tree)', '', fact=n, expected='>= 6', nontrivial=False)
 
 
 def rule_all_fields_gate(ctx, entry_suffix, param, adt_suffix, cfg='prod-all', rule='RF-K', skip=(), extra_prefix=()):
